@@ -119,10 +119,10 @@ def main(tier, replay=None):
     for kind in ("Array", "List", "Tuple"):
         ints = sorted(set(rng.sample(range(-50, 50), 7) + [0]))
         z = ints.index(0) + 1
-        camp.run(seqgen.header("Int", ints), [seqgen.random_history(rng, kind, len(ints), big(), zero_tok=z, maxlen=ml, fromit=True)
+        camp.run(seqgen.header("Int", ints), [seqgen.random_history(rng, kind, len(ints), big(), zero_tok=z, maxlen=ml, fromit=True, sortmixed=True)
                                              for _ in range(nexec)], "random/%s/Int" % kind, variant=kind)
         strs = sorted({bytes(rng.choice(b"ab\x80\xff") for _ in range(rng.randint(0, 3))) for _ in range(40)})[:8]
-        camp.run(seqgen.header("String", strs), [seqgen.random_history(rng, kind, len(strs), big(), maxlen=ml, fromit=True)
+        camp.run(seqgen.header("String", strs), [seqgen.random_history(rng, kind, len(strs), big(), maxlen=ml, fromit=True, sortmixed=True)
                                                 for _ in range(nexec)], "random/%s/String" % kind, variant=kind)
         if kind != "Tuple":
             camp.run(seqgen.header("Probe", list(range(8))), [seqgen.random_history(rng, kind, 8, big(), maxlen=ml)
